@@ -26,7 +26,9 @@ def _run(ex, history, want):
     proto = None if isinstance(want, (tuple, list)) else want
     ex.run(ops[:-1])
     ex.before = proto.before_last(ex, history) if (proto is not None and ops and hasattr(proto, "before_last")) else None
+    ex.gc_armed = True
     ex.run(ops[-1:])
+    ex.gc_armed = False
     key = canon_key(ex)  # before the final observation, which itself loads lazy fields
     mkey = model_key(ex)
     obs = proto.observe(ex, history) if proto is not None else ex.finish(want)
